@@ -859,6 +859,12 @@ func appendResourceSpecIfMissed(object metav1.Object, state *preFilterState, nod
 	// Write back ResourceSpec annotation if the Pod hasn't specified CPUBindPolicy
 	shouldWriteBack := false
 	annotations := object.GetAnnotations()
+	if reservation, ok := object.(*schedulingv1alpha1.Reservation); ok && reservation.Spec.Template != nil {
+		// the resource spec of a reservation can be declared on its pod template, keep it when writing back
+		if _, exist := annotations[extension.AnnotationResourceSpec]; !exist {
+			annotations = reservation.Spec.Template.Annotations
+		}
+	}
 	resourceSpec, _ := extension.GetResourceSpec(annotations)
 	if required && (resourceSpec.RequiredCPUBindPolicy == "" || resourceSpec.RequiredCPUBindPolicy == extension.CPUBindPolicyDefault) {
 		resourceSpec.RequiredCPUBindPolicy = extension.CPUBindPolicy(cpuBindPolicy)
